@@ -160,7 +160,7 @@ def dmig_part(run, bulk, np, pd):
         if run.tier == "quick" and pick.random() > 0.4:
             continue
         for ti, dt in enumerate(dtypes):
-            if run.tier == "quick" and pick.random() > 0.5:
+            if pick.random() > (0.5 if run.tier == "quick" else 0.6):
                 continue
             cplx = ti >= 2
             vm = vals_c if cplx else vals_r
